@@ -22,7 +22,7 @@ class CaseAbort(Exception):
 
 # exception -> property that owns the mechanism (C03 takes everything else)
 ATTRIBUTION = [
-    (r'Input part is missing|Output part slot is already full|Invalid PartHandler state', 'C06'),
+    (r'Input part is missing|Output part slot is already full|Invalid PartHandler state', ('C06', 'C13')),
     (r'trying to exit Group|RecursionError|maximum recursion', 'C08'),
     (r'Trying to release|did not reserve any', 'C11'),
     (r'library calls inside one event \(in (_check_pending_requests|_can_fulfill_request)', 'C10'),
@@ -192,15 +192,15 @@ class LineRun:
 
     def judge_crash(self):
         kind, msg, tb = self.crash
-        owner = 'C03'
+        owner = ('C03',)
         for pat, prop in ATTRIBUTION:
             if re.search(pat, msg) or re.search(pat, kind):
-                owner = prop
-        if self.prop == owner or self.prop == 'C03':
+                owner = prop if isinstance(prop, tuple) else (prop,)
+        if self.prop in owner or self.prop == 'C03':
             self.report('crash' if kind != 'budget' else 'no_bounded_progress',
                         f'well-posed model did not run to its horizon: {msg}', {'traceback': tb})
         else:
-            self.count('crashed_cases_owned_by_' + owner)
+            self.count('crashed_cases_owned_by_' + '_'.join(owner))
 
     def features(self):
         f = {}
